@@ -75,6 +75,10 @@ def add_segment(u, n):
                   for i, x in enumerate(sh.fields))
     dist = ' + '.join('(j%d - p.%s.v@) * (j%d - p.%s.v@)' % (i, x, i, x) for i, x in enumerate(sh.fields))
     u.take(P, gh, 'distance_to_point', C(ensures=['({ let len2 = %s; %s res.v@ == sqrt_r(%s) })' % (len2, js, dist)]), tparams=('T',))
+    # range conversions keep both end points (pure element movement, generic T)
+    u.take(P, gh, 'into_range', C(ensures=['res.start == self.start', 'res.end == self.end']), mode='G')
+    u.take_impl(P, 'impl<T> From<Range<%s<T>>> for %s<T>' % (sh.name, N),
+                {'from': C(ensures=['res.start == range.start', 'res.end == range.end'])}, mode='G')
     return ens
 
 
@@ -244,7 +248,7 @@ def plan(exp, tier):
         u.add_root(lm.verus_text('C16'))
     p.lemmas += list(lem.values())
     p.add_unit('c16', u, ['ops', 'vec', 'geom'])
-    p.not_decided += ['LineSegment into_range / From<Range> and as_ (casts: C20)',
+    p.not_decided += ['LineSegment as_ (casts: C20)',
                       'the degenerate-segment branch (length approximately zero) is only contracted (returns start)',
                       'ray-triangle: "non-parallel" is the code\'s |a| >= epsilon test']
     return p
